@@ -89,4 +89,10 @@ def _parse_flat_metadata(contents: str) -> DistInfo:
         raise MetadataError(
             "unknown", version, ValueError("Missing name metadata for package")
         )
-    return DistInfo(name, version, list(utils.parse_requirements(raw_reqs)))
+    try:
+        reqs = list(utils.parse_requirements(raw_reqs))
+    except ValueError as ex:
+        # A Requires-Dist value that cannot be parsed makes the distribution
+        # unusable, like any other unreadable metadata.
+        raise MetadataError(name, version, ex) from ex
+    return DistInfo(name, version, reqs)
